@@ -40,7 +40,7 @@ def gen_callbacks(r, typ):
         k = r.choice(kinds)
         period = r.choice([1, 1, 2, 2, 3, 4, 5])
         if k == "metric":
-            out.append({"kind": "metric", "period": period, "log": r.random() < 0.6, "two": r.random() < 0.5, "verbose": r.random() < 0.2, "names": r.choice([["alpha", "beta"], ["alpha", "beta"], ["period", "log"], ["names", "metrics"], ["m 1", "m-2"]])})
+            out.append({"kind": "metric", "period": period, "log": r.random() < 0.6, "two": r.random() < 0.5, "verbose": r.random() < 0.2, "names": r.choice([["alpha", "beta"], ["alpha", "beta"], ["period", "log"], ["names", "metrics"], ["m 1", "m-2"], ["overlap", "overlaps"], ["losss", "loss"]])})
         elif k == "observable":
             out.append({"kind": "observable", "period": period, "log": r.random() < 0.6, "obs": r.choice([["Z"], ["user"], ["Z", "user"], ["X"]]), "num_samples": r.choice([2, 4, 5]), "num_chains": r.choice([0, 2]), "verbose": r.random() < 0.2})
         elif k == "logger":
@@ -51,7 +51,7 @@ def gen_callbacks(r, typ):
                     "kind": "saver",
                     "period": period,
                     "save_initial": r.random() < 0.6,
-                    "metadata": r.choice(["callable", "dict", "dict", "none"]),
+                    "metadata": r.choice(["callable", "dict", "dict", "live_dict", "none"]),
                     "metadata_only": r.random() < 0.2,
                     "file_name": r.choice(["ep{}.pt", "model_{}", "ck-{}-x.pt", "ck_{:03}.pt", "{:>5}-m.pt"]),
                 }
@@ -149,6 +149,7 @@ def execute(plan):
         # ---- build the periodic callbacks and their witness-side records -----------
         recs = []
         cbs = []
+        live_dicts = []
         construct_failed = False
         for i, spec in enumerate(c["callbacks"]):
             rec = {"spec": spec, "calls": [], "values": [], "i": i}
@@ -213,6 +214,11 @@ def execute(plan):
                         meta = {"note": "same-dict-every-period", "k": [1, 2, 3]}
                         rec["md_obj"] = meta
                         rec["md_copy"] = copy.deepcopy(meta)
+                    elif spec["metadata"] == "live_dict":
+                        # the user's dict, kept up to date by the user at every epoch start (see the witness handler)
+                        meta = {"note": "live", "last_epoch": 0}
+                        rec["live"] = meta
+                        live_dicts.append(meta)
                     else:
                         meta = None
                     rec["folder"] = f"ckpt{i}"
@@ -245,6 +251,9 @@ def execute(plan):
         def handler(kind, args, idx, nn_state, seq):
             if kind == "ES":
                 cur["epoch"] = args[0]
+                for ld in live_dicts:
+                    ld["last_epoch"] = args[0]
+                    ld["tag"] = f"during-epoch-{args[0]}"
             elif kind == "TS":
                 cur["epoch"] = 0
                 ts_params[cur["run"]] = params_snapshot(nn_state)
@@ -483,7 +492,12 @@ def execute(plan):
                     snap = ts_params.get(ri) if lbl == "initial" else ee_params.get((ri, e))
                     if snap is None:
                         continue
-                    want_md = _callable_md(e) if spec["metadata"] == "callable" else (rec.get("md_copy") if spec["metadata"] == "dict" else {})
+                    if spec["metadata"] == "live_dict":
+                        want_md = {"note": "live", "last_epoch": 0} if lbl == "initial" and ri == 0 else {"note": "live", "last_epoch": e, "tag": f"during-epoch-{e}"}
+                        if lbl == "initial" and ri > 0:
+                            continue  # (content at the second train start is whatever the first run left: not modelled)
+                    else:
+                        want_md = _callable_md(e) if spec["metadata"] == "callable" else (rec.get("md_copy") if spec["metadata"] == "dict" else {})
                     try:
                         raw = torch.load(pth)
                     except Exception as exc:  # noqa: BLE001
